@@ -165,7 +165,11 @@ def declared_vs_oracle(ctx, w, config):
                      "defining equation %s = %s %s %s is not what the catalogue declares (%s)" % (e + (sorted(g for g in got if g[0] == e[0]),)), where.get(e[0]))
         for e in sorted(got - want):
             if not any(x[0] == e[0] for x in want):
-                ctx.fail("derivation-oracle", "%s/%s/%s" % (config, crate_name, e[0]), "declared derivation %s = %s %s %s has no defining equation in the oracle" % e, where.get(e[0]))
+                # a quantity the oracle does not know (added to the catalogue later): nothing independent to compare its
+                # declaration with — reported as unverified in the evidence, not as a violation; its operators are still
+                # checked against the closure of this declaration and (where the operands are known) dimensionally
+                ctx.unverified.append("%s/%s: declared derivation %s = %s %s %s is not in oracle/derivations.json" % ((config, crate_name) + e))
+                ctx.ob("derivation-oracle", "%s/%s/%s" % (config, crate_name, e[0]), True, "", where.get(e[0]), nontrivial=False)
         for e in sorted(got & want):
             ctx.ob("derivation-oracle", "%s/%s/%s" % (config, crate_name, e[0]), True, "")
 
